@@ -16,11 +16,28 @@ theorem create_forces_noninitial (i : In) :
   rcases i with ⟨d, m, b, o, df, ini⟩
   cases d <;> cases m <;> cases b <;> cases o <;> cases df <;> cases ini <;> rfl
 
-theorem gate_eq (h : Handler) (c : Cause) (m : Bool) : Extracted.gate h c m = (gate h c && m) := by
-  rcases h with ⟨hr, hi, hd⟩
+theorem gate_eq (h : Shape) (c : Cause) (m : Bool) : Extracted.gate h c m = (gateS h c && m) := by
+  rcases h with ⟨hr, hi, hd, hn⟩
   rcases c with ⟨cr, ci, cm⟩
-  cases hr <;> cases hi <;> cases hd <;> cases ci <;> cases cm <;> cases m <;>
-    simp [Extracted.gate, gate]
+  cases hr <;> cases hi <;> cases hd <;> cases hn <;> cases ci <;> cases cm <;> cases m <;>
+    simp [Extracted.gate, gateS]
+
+/-- Stated on the extracted code itself (/repo 17e5c42): a sub-handler-shaped handler (no cause kind, not
+    resuming, no change of a field needed) is yielded by `iter_handlers` for every cause — on objects marked
+    for deletion too — exactly when `match()` accepts it. -/
+theorem sub_gate_is_match (h : Shape) (c : Cause) (m : Bool) (hk : h.reason = none)
+    (hni : h.initial = false) (hnc : h.needsChange = false) : Extracted.gate h c m = m := by
+  rcases h with ⟨hr, hi, hd, hn⟩
+  rcases c with ⟨cr, ci, cm⟩
+  cases cm <;> cases m <;> simp_all [Extracted.gate]
+
+/-- … while a field handler (needs a change) is never yielded on a marked object, whatever `match()` says. -/
+theorem field_gate_on_marked (h : Shape) (c : Cause) (m : Bool) (hk : h.reason = none)
+    (hni : h.initial = false) (hnc : h.needsChange = true) (hm : c.marked = true) :
+    Extracted.gate h c m = false := by
+  rcases h with ⟨hr, hi, hd, hn⟩
+  rcases c with ⟨cr, ci, cm⟩
+  cases m <;> simp_all [Extracted.gate]
 
 theorem handler_reasons_eq : Extracted.handlerReasons = handlerReasons := by decide
 
